@@ -37,6 +37,8 @@ structure Ctx where
   lastCur : Option Nat := none                    -- item_idx under the cursor at the last snapshot
   runCmd : List (Nat × Nat) := []                 -- run number -> command id
   multi : Bool := false
+  lastClear : String := "D"                       -- clear strategy at the last snapshot
+  transientSel : Bool := false                    -- a selection action was issued while the list still belonged to another command run
   ed : SkimModel.Editor.Ed := {}                  -- the query editor driven by the same editing events (C18's model)
 
 def itemId (cid pos : Nat) : Nat := cid * 100000 + pos
@@ -124,7 +126,9 @@ def judgeOut (c : Ctx) (s : S) (kvs : List String) : Ctx :=
       | some i => [itemId c.cid (i + c.hl)]
       | none => []
   let got := decNats (kvGet kvs "items")
-  let c := if got == want then c else flagBad c s!"accept-items:got[{encNats got}]want[{encNats want}]"
+  -- selections made during the transient of a command re-run (old list, new run number) have unspecified
+  -- identities (excluded by C10/C05): then only "every returned item is a supplied object" is judged
+  let c := if got == want || c.transientSel then c else flagBad c s!"accept-items:got[{encNats got}]want[{encNats want}]"
   let c := if kvGet kvs "ptr" == "1" then c else flagBad c "returned-item-is-not-the-supplied-object"
   -- query / command query exactly as edited
   let wq := encStr c.ed.fz.line
@@ -166,9 +170,9 @@ def applyTok (m : Nat → Nat → Bool) (cs : Ctx × S) (tok : List String) : Ct
       let cid := cid.toNat?.getD 0
       ({ c with cid := cid, lastWasSel := false, runCmd := (run.toNat?.getD 0, cid) :: c.runCmd },
         handleUser s (.setCmd (run.toNat?.getD 0) (srcOf c cid)))
-  | ["Ut", idx] => ({ c with lastWasSel := true }, handleUser s (.toggle (idx.toNat?.getD 0)))
-  | ["Usa"] => ({ c with lastWasSel := true }, handleUser s .selectAll)
-  | ["Uta"] => ({ c with lastWasSel := true }, handleUser s .toggleAll)
+  | ["Ut", idx] => ({ c with lastWasSel := true, transientSel := c.transientSel || c.lastClear == "N" }, handleUser s (.toggle (idx.toNat?.getD 0)))
+  | ["Usa"] => ({ c with lastWasSel := true, transientSel := c.transientSel || c.lastClear == "N" }, handleUser s .selectAll)
+  | ["Uta"] => ({ c with lastWasSel := true, transientSel := c.transientSel || c.lastClear == "N" }, handleUser s .toggleAll)
   | ["Uda"] => ({ c with lastWasSel := true }, handleUser s .deselectAll)
   | ["Uo"] => ({ c with lastWasSel := false }, handleUser s .other)
   | ["Uacc"] => ({ c with lastWasSel := false }, handleUser s .accept)
@@ -186,7 +190,7 @@ def applyTok (m : Nat → Nat → Bool) (cs : Ctx × S) (tok : List String) : Ct
       let c4 := if !c3.lastWasSel && implSel != c3.lastSel then
                   flagBad c3 s!"selection-changed-by-non-selection-event:{showKeys c3.lastSel}->{sel}"
                 else c3
-      ({ c4 with lastSel := implSel }, s)
+      ({ c4 with lastSel := implSel, lastClear := clear }, s)
   | ["DEC", kind, n] =>
       -- the real code took a select-1/exit-0 decision inside the heart beat just replayed
       let quiet := s.unread.isEmpty && s.buf.isEmpty && !s.live && s.mc.isNone &&
